@@ -10,6 +10,7 @@ NCPU = os.cpu_count() or 16
 # command topologies as coded (DESIGN.md Appendix C); 'T' / 'N' are substituted per run
 TOPO = {
     "toma": dict(Stages=1, CapIn="T", CapOut=0, Reorder=True, Header=True, HdrWrites=0, WritesPer=2, pool="T"),
+    "tomapad": dict(Stages=1, CapIn="T", CapOut=0, Reorder=True, Header=True, HdrWrites=0, WritesPer=2, pool="T"),
     "tomawrap": dict(Stages=1, CapIn="T", CapOut=0, Reorder=True, Header=True, HdrWrites=0, WritesPer=5, pool="T"),
     "samvar": dict(Stages=2, CapIn="T", CapOut=0, Reorder=True, Header=True, HdrWrites=1, WritesPer=2, pool="T"),
     "variants": dict(Stages=1, CapIn="N", CapOut="N", Reorder=True, Header=False, HdrWrites=1, WritesPer=2, pool="T"),
@@ -55,7 +56,7 @@ def trace_of(row):
     return lines
 
 
-FANOUT = ("closest", "closestn", "closestntable", "toprank", "topranktable")
+FANOUT = ("closest", "closestn", "closestd", "closestntable", "toprank", "topranktable")
 
 
 def fanout_trace_of(row):
